@@ -1,13 +1,15 @@
 import gfapy
 import re
 
-def decode(string):
+def unsafe_decode(string):
   try:
     return int(string)
   except:
     raise gfapy.FormatError("the string does not represent a valid integer")
 
-unsafe_decode = decode
+def decode(string):
+  validate_encoded(string)
+  return unsafe_decode(string)
 
 def validate_decoded(obj):
   if isinstance(obj, int):
